@@ -34,6 +34,7 @@ prop(
         "A case signature is (entry point, attribute order, signed-attrs size class, violated condition or none, CRL shape, EE AKI / basicConstraints shape, BER variant, "
         "time position relative to both windows, key relation) or (flip, entry point, region, decoded?) or, for (4), (entry point, key-size pairing, AKI flavours, position relative to both windows with the seconds "
         "next to each end told apart, which fraction). evaluations = validate_at (or failed decode) results judged by the oracle."
+        "CRL entries listing the EE certificate carry revocation dates before, at and after thisUpdate, after every evaluation instant, beyond nextUpdate and decades ahead; additional signed attributes take every shape of SET SIZE (1..MAX) OF AttributeValue (one, two, three values, mixed types, nested SEQUENCE, NULL / BOOLEAN). "
     ),
     assumptions=[
         "keys come from caches under .build/keys: six RSA-2048 pool keys, three RSA-3072 and two RSA-4096 keys (generated with aws-lc-rs by the first run, kept in a process-wide OnceLock); only RSA: the CMS signature algorithm of these messages is sha256WithRSAEncryption, "
@@ -48,6 +49,7 @@ prop(
         "the largest signed-attribute set tried is 4000 octets",
         "RFC 6492 / 8181 / 8183 do not profile the CRL of the business PKI (RFC 6487 section 5 restricts RPKI CRLs only) and RFC 5280 lets a verifier ignore unknown non-critical extensions, so a CRL with such an extension still meets every condition of the statement",
         "SoftSigner histories need RSA key generation (create_key and the one-off EE key of every created message): one short history per shard natively and under ASan, none under valgrind",
+        "a certificate listed on the CRL is revoked whatever the entry's revocation date says (the statement: 'does not list the EE certificate')",
     ],
     level_text=(
         "Runtime oracle: the conjunction in the statement (digest, signature over the DER SET OF of all signed attributes, EE signed by the peer key / current / not a CA, CRL signed by the peer key / current / "
